@@ -2007,3 +2007,46 @@ def c17(tier, replay):
                        "with a patch script")
     rep.cov["exhaustive"] = n >= len(cases)
     return rep.finish()
+
+
+# ---------------------------------------------------------------------------
+# --replay for the cases that are self-contained in their replay file
+# ---------------------------------------------------------------------------
+def replay(pid, case):
+    """Re-run one recorded failing case (C12, C13) against the current /repo.
+    Exit 1 iff it still fails; None = not self-contained, the caller re-runs
+    the check with the recorded seed."""
+    if pid == "C13" and "argv" in case and "files" in case:
+        root = tempfile.mkdtemp(prefix="vfrep-", dir=scratch_dir("rep"))
+        os.makedirs(os.path.join(root, "out"), exist_ok=True)
+        for name, text in case["files"].items():
+            os.makedirs(os.path.dirname(os.path.join(root, name)), exist_ok=True)
+            with open(os.path.join(root, name), "w", encoding="utf-8", errors="surrogateescape") as f:
+                f.write(text)
+        argv = [a.replace("<dir>", root) for a in case["argv"]]
+        watchdog_install(_on_alarm)
+        watchdog_start(8)
+        try:
+            status, info, _ = CL.run_main(argv)
+        except _Alarm:
+            status, info = "timeout", "no answer within 8 s of CPU time"
+        finally:
+            watchdog_stop()
+        exc = info.split(":", 1)[0] if status == "internal" else ""
+        base = exc[exc.find("<") + 1:-1] if "<" in exc else exc
+        bad = status == "timeout" or (status == "internal" and (exc in BANNED or base in BANNED))
+        print("replay C13: %s %s" % (status, str(info)[:300]))
+        if bad:
+            print("VIOLATION property=C13 replay=(replayed case)")
+        return 1 if bad else 0
+    if pid == "C12" and "schema" in case and "label" in case:
+        it = {"text": case["schema"], "label": case["label"], "rules": case.get("rules"), "cpp": True,
+              "expect": "reject" if "breaks a documented rule" in case.get("what", "") or "rule breaker" in case.get("what", "")
+              else "accept"}
+        res = legality_worker([it], 0, {"scratch": scratch_dir("rep")})
+        for f in res["fails"]:
+            print("replay C12: %s" % f["what"][:300])
+        if res["fails"]:
+            print("VIOLATION property=C12 replay=(replayed case)")
+        return 1 if res["fails"] else 0
+    return None
